@@ -88,11 +88,11 @@ Proof.
     specialize (Hu Hf h1 eq_refl). destruct (upd w _ h1); tauto.
   - (* OUnref *)
     rewrite <- Fw1 in Hpre. destruct (life_ok f) as [Hun _].
-    pose proof (Hun [] h1 w HI1 (detached_nil h1) Hpre (fun x => x) h1 eq_refl) as Hu.
+    pose proof (Hun [] h1 w HI1 (detached_nil h1) Hpre (fun x => x) (fun _ _ _ (x : In root []) => x) h1 eq_refl) as Hu.
     destruct (unref fixed f w h1); tauto.
   - (* OClose *)
     rewrite <- Fw1 in Hpre. destruct (live_some h1 w Hpre) as [cw Hw].
-    pose proof (close_spec [] f w cw h1 HI1 Hw h1 eq_refl) as Hc.
+    pose proof (close_spec [] f w cw h1 HI1 Hw (fun _ (x : In root []) => x) h1 eq_refl) as Hc.
     destruct (close fixed f w h1); tauto.
   - (* ORestack *)
     destruct Hpre as [Hrs [cw [Hw Hat]]]. rewrite <- Fw1 in Hw.
@@ -201,7 +201,7 @@ Proof.
     + intro q. split; [intros []|]. intro H. rewrite Fq in H. congruence.
     + intros q cq Hq. rewrite Fq in Hq. discriminate.
   - intros q cq Hq. rewrite Fq in Hq. discriminate.
-  - reflexivity.
+  - exists None. split; [reflexivity|]. intros d Ed. discriminate.
   - intros a Ha. rewrite Fw in Ha. destruct (Pos.eqb a root) eqn:E; [|congruence].
     apply Pos.eqb_eq in E. subst a. unfold root. cbn. lia.
   - unfold root. cbn. lia.
